@@ -55,8 +55,8 @@ IDENT = Motion()
 
 def _plane3_exact(p1, p2, p3):
     '''The orientation rule in the arithmetic of the card itself: when every
-    coordinate is a short decimal number (at most six decimals, as a user
-    types them), the cross product and D are computed with rational numbers
+    coordinate is a short decimal number (at most fourteen significant
+    digits, as a user types them: repr() of the double gives it back), the cross product and D are computed with rational numbers
     and "zero" means zero - no tolerance is involved.  Returns None for
     coordinates that are not short decimals (computed values printed with
     seventeen digits): their exact value is the rounding noise of whoever
@@ -67,9 +67,12 @@ def _plane3_exact(p1, p2, p3):
         row = []
         for val in pnt:
             val = float(val)
-            if abs(val) > 1e7 or round(val, 6) != val:
+            text = repr(val)
+            mant = text.lower().split('e')[0]
+            if len(mant.replace('-', '').replace('.', '').strip('0')) > 14:
+                # a computed value: what was typed is not recoverable
                 return None
-            row.append(Fraction(repr(val)))
+            row.append(Fraction(text))
         pts.append(row)
     d12 = [b - a for a, b in zip(pts[0], pts[1])]
     d13 = [b - a for a, b in zip(pts[0], pts[2])]
